@@ -264,12 +264,89 @@ fn replay_case(ctx: &Ctx) -> Option<Case> {
     })
 }
 
+// ---- mutation histories on ONE message object (differential: the same history without the observations)
+
+const HIST_OPS: [&str; 9] = ["to_bytes()", "header.request_id", "header.operation_or_status", "header.version", "add(op,x=1)", "add(job,y=k)", "add(op,x=2)", "groups_mut().push(printer)", "payload=pp"];
+
+fn apply_hist_op(r: &mut IppRequestResponse, op: usize) {
+    match op {
+        0 => {
+            let _ = r.to_bytes();
+        }
+        1 => r.header_mut().request_id = r.header().request_id.wrapping_mul(3).wrapping_add(0x0101_0101),
+        2 => r.header_mut().operation_or_status = r.header().operation_or_status.wrapping_add(0x0406),
+        3 => r.header_mut().version = IppVersion(r.header().version.0 ^ 0x0301),
+        4 => r.attributes_mut().add(DelimiterTag::OperationAttributes, IppAttribute::new("x", IppValue::Integer(1))),
+        5 => r.attributes_mut().add(DelimiterTag::JobAttributes, IppAttribute::new("y", IppValue::Keyword("k".into()))),
+        6 => r.attributes_mut().add(DelimiterTag::OperationAttributes, IppAttribute::new("x", IppValue::Integer(2))),
+        7 => r.attributes_mut().groups_mut().push(IppAttributeGroup::new(DelimiterTag::PrinterAttributes)),
+        _ => *r.payload_mut() = IppPayload::new(Cursor::new(b"pp".to_vec())),
+    }
+}
+
+fn run_history(hist: &[usize], with_observations: bool) -> Result<CMsg, String> {
+    let mut r = IppRequestResponse::new_response(IppVersion::v1_1(), StatusCode::SuccessfulOk, 7);
+    for &op in hist {
+        if op == 0 && !with_observations {
+            continue;
+        }
+        apply_hist_op(&mut r, op);
+    }
+    let bytes = read_all(r.into_read())?;
+    let m = r1::decode(&bytes).map_err(|e| format!("encoded message is malformed: {}", e.0))?;
+    Ok(m.canon())
+}
+
+fn c01_histories(st: &mut Stats, max_len: usize) {
+    let mut seqs: Vec<Vec<usize>> = vec![vec![]];
+    let mut layer: Vec<Vec<usize>> = vec![vec![]];
+    for _ in 0..max_len {
+        let mut next = vec![];
+        for s in &layer {
+            for op in 0..HIST_OPS.len() {
+                let mut q = s.clone();
+                q.push(op);
+                next.push(q);
+            }
+        }
+        seqs.extend(next.iter().cloned());
+        layer = next;
+    }
+    for h in seqs {
+        if !h.contains(&0) {
+            continue; // no observation in the history: nothing to compare
+        }
+        st.evaluations += 1;
+        st.traces += 1;
+        st.transitions += h.len() as u64;
+        let names: Vec<&str> = h.iter().map(|o| HIST_OPS[*o]).collect();
+        let r = std::panic::catch_unwind(|| (run_history(&h, true), run_history(&h, false)));
+        let key = fnv(format!("{:?}", h).as_bytes());
+        st.nontrivial.insert(key);
+        match r {
+            Ok((Ok(a), Ok(b))) => {
+                st.states.insert(fnv(format!("{:?}", a).as_bytes()));
+                match b.diff(&a) {
+                    None => st.outcome("history-independent"),
+                    Some(d) => {
+                        st.outcome("stale");
+                        st.violate("history:encoding-depends-on-earlier-to_bytes", format!("after {:?} the message serialises differently from the same history without the to_bytes() calls: {}", names, d), json!({"history": h}));
+                    }
+                }
+            }
+            Ok((a, b)) => st.violate("history:error", format!("{:?}: {:?} / {:?}", names, a.err(), b.err()), json!({"history": h})),
+            Err(p) => st.violate("history:panic", format!("{:?}: {}", names, panic_text(p)), json!({"history": h})),
+        }
+        st.sample(1, || json!({"history": names}));
+    }
+}
+
 pub fn run_c01(ctx: &Ctx) -> ! {
     silence_panics();
     let mut rep = Report::new(
         ctx,
         "exploration",
-        "every message of the bounded value model (skeleton-exhaustive over a 3-leaf alphabet within a node budget; every D-atom in every context class; permutation programs; 16-bit length sweep) x payload kinds, each rebuilt in fresh maps until every attribute iteration order was observed; built through the public API, serialised by to_bytes()/into_read(), parsed by IppParser and AsyncIppParser, compared as header + ordered groups + name->values maps + payload octets. distinct = distinct (message, payload kind); non-trivial = has at least one attribute",
+        "every message of the bounded value model (skeleton-exhaustive over a 3-leaf alphabet within a node budget; every D-atom in every context class; permutation programs; 16-bit length sweep) x payload kinds, each rebuilt in fresh maps until every attribute iteration order was observed; built through the public API, serialised by to_bytes()/into_read(), parsed by IppParser and AsyncIppParser, compared as header + ordered groups + name->values maps + payload octets; plus every history of <= 4 (5) operations on ONE message object over {to_bytes(), 3 header mutations, 3 add()s, groups_mut().push, payload set} compared with the same history without the to_bytes() observations (a serialisation must not depend on earlier serialisations). distinct = distinct (message, payload kind); non-trivial = has at least one attribute",
     );
     rep.assume("HashMap iteration orders are covered by observation (all m! orders of every group seen), not by controlling the hasher");
     let seed = ctx.seed;
@@ -283,6 +360,9 @@ pub fn run_c01(ctx: &Ctx) -> ! {
         rep.finish();
     }
     run_space(ctx, &mut rep, |c, st| c01_case(c, seed, st));
+    let mut st = Stats::new();
+    c01_histories(&mut st, ctx.tier.pick(4, 5));
+    rep.section("mutation-histories-on-one-object", st);
     rep.finish()
 }
 
